@@ -410,6 +410,7 @@ pub fn check(ctx: &Ctx, rep: &mut Report) {
             if !ctx.wants(n) {
                 continue;
             }
+            crate::apply::set_route_seed(ctx.seed ^ n.wrapping_mul(0x9E3779B97F4A7C15));
             let mut rng = ctx.rng("rand", k * 3 + d as u64);
             let depth = 2 + rng.below(5);
             let x = random_tree(&mut rng, d, depth);
